@@ -92,6 +92,23 @@ def outcomesAfterG (before : List Header) : List Header → List Outcome
 
 def outcomesG (hs : List Header) : List Outcome := outcomesAfterG [] hs
 
+/-- One source text with several modules, after the headers `before` were loaded: the text is
+accepted when every one of its headers would be, one after the other; otherwise it is rejected
+for the first header that would not (and nothing of the text is loaded). -/
+def textOutcome (before text : List Header) : Outcome :=
+  ((outcomesAfterG before text).find? (· != .ok)).getD .ok
+
+/-- Text by text; `before` are the headers of the texts accepted so far. -/
+def textsOutcomesAfter (before : List Header) : List (List Header) → List Outcome
+  | [] => []
+  | t :: rest =>
+    textOutcome before t :: textsOutcomesAfter (if textOutcome before t = .ok then before ++ t else before) rest
+
+/-- The headers loaded by the accepted texts. -/
+def textsAccepted (before : List Header) : List (List Header) → List Header
+  | [] => before
+  | t :: rest => textsAccepted (if textOutcome before t = .ok then before ++ t else before) rest
+
 /-- How many loads of header `h` are rejected: all but one. -/
 def rejectedCount (hs : List Header) (h : Header) : Nat := hs.count h - 1
 
